@@ -109,6 +109,22 @@ Theorem C09_binding_last_wins :
 Proof. exact binding_last_wins. Qed.
 Print Assumptions C09_binding_last_wins.
 
+(* Explicit positions.  A schema whose properties each declare a column position (a
+   hand-written or external schema that lists the columns in another order than the file, or
+   only some of them): whatever the order of the declarations and whatever the positions
+   (position 0 included, wherever it is listed), a declared name reads the cell at ITS declared
+   position (absent when the row is too short), any other name is a KeyError, and the value
+   list is the cells at the declared positions in declaration order. *)
+Theorem C09_explicit_positions : forall decl : list (key * nat),
+  NoDup (map fst decl) ->
+  (forall k r, nav_name (hand_schema_at decl) k r
+               = match declared_cell key_eqb decl k r with Some v => Ok v | None => Err KeyError end)
+  /\ (forall i k p r, nth_error decl i = Some (k, p) ->
+                      nav_name (hand_schema_at decl) k r = Ok (nth_error r p))
+  /\ (forall r, values (hand_schema_at decl) r = Ok (cells_at decl r)).
+Proof. exact explicit_positions_hand. Qed.
+Print Assumptions C09_explicit_positions.
+
 (* ---- non-vacuity: the hypotheses of each implication are satisfiable ---- *)
 Definition ex_a : cell := Txt [97; 32; 98]%N.          (* 'a b' *)
 Definition ex_b : cell := Txt [49; 120]%N.             (* '1x' *)
@@ -177,3 +193,13 @@ Example C09_external_needs_named_distinct_rows :
   /\ ext_load_meta [[ex_a]; [ex_b]; [ex_a]]
      = Ok [mk_entry [97; 32; 98]%N (Some 2); mk_entry [49; 120]%N (Some 1)].
 Proof. split; vm_compute; reflexivity. Qed.
+
+(* position 0 declared second: the names read columns 1 and 0, the values come in that order *)
+Example C09_explicit_positions_example :
+  NoDup (map fst [([49; 120]%N, 1); ([97; 32; 98]%N, 0)])
+  /\ nav_name (hand_schema_at [([49; 120]%N, 1); ([97; 32; 98]%N, 0)]) [97; 32; 98]%N [ex_1; ex_2] = Ok (Some ex_1)
+  /\ values (hand_schema_at [([49; 120]%N, 1); ([97; 32; 98]%N, 0)]) [ex_1; ex_2] = Ok [Some ex_2; Some ex_1].
+Proof.
+  split; [|split; vm_compute; reflexivity].
+  simpl. constructor; [|constructor; [intros []|constructor]]. intros [H|[]]. discriminate.
+Qed.
